@@ -58,6 +58,7 @@ var specKindOverride = map[string]string{
 	"Cluster.max_request_per_conn":    "default", // ParseClusterConfig: 0 -> DefaultMaxRequestPerConn
 	"Cluster.conn_buffer_limit_bytes": "default", // ParseClusterConfig: 0 -> DefaultConnBufferLimitBytes
 	"Host.weight":                     "clamp",   // transHostWeight: [MinHostWeight, MaxHostWeight]
+	"TLSConfig.sds_source":            "pair",    // *SdsConfig of two SecretConfigWrapper: custom marshaler pair with a private raw copy
 	"Cluster.circuit_breakers":        "keep",    // a struct with its own marshaler: omitempty has no effect
 	"Listener.network":                "default", // "" -> "tcp"
 	"Listener.name":                   "default", // "" -> listen address
@@ -93,7 +94,6 @@ var fixedFields = map[string]bool{
 	"FilterChain.tls_context_set":              true, // coupled with tls_context (reshape): scenarios tls-set / tls-context-and-set
 	"MOSNConfig.close_graceful":                true, // deprecated alias: Init turns it into disable_upgrade
 	"TLSConfig.status":                         true, // status=true builds real TLS managers: scenarios and C20
-	"TLSConfig.sds_source":                     true, // needs an SDS server
 	"MOSNConfig.inherit_old_mosnconfig":        true,
 	"MOSNConfig.wasm_global_plugins":           true,
 	"MOSNConfig.third_part_codec":              true,
@@ -303,6 +303,9 @@ func BuildGraph() *Graph {
 			}
 			f.Fixed = fixedFields[key] || skipTypes[name]
 			f.Classes = classesFor(f)
+			if key == "TLSConfig.sds_source" {
+				f.Classes = []string{"unset", "zero", "typ", "bound"}
+			}
 			if f.Fixed {
 				f.Classes = []string{"unset"}
 			}
